@@ -32,16 +32,16 @@ func (c seqClass) String() string {
 type entryKind int
 
 const (
-	kNewMsg entryKind = iota // common pts, travels in difference.new_messages
-	kDelete                  // common pts, other_updates (pts_count 1..3)
-	kRead                    // common pts, other_updates
-	kEdit                    // common pts, other_updates
-	kEnc                     // qts, new_encrypted_messages
-	kBotStopped              // qts, other_updates
-	kChatPart                // qts, other_updates
-	kChMsg                   // channel pts, channelDifference.new_messages
-	kChDelete                // channel pts, other_updates (pts_count 1..3)
-	kChEdit                  // channel pts, other_updates
+	kNewMsg     entryKind = iota // common pts, travels in difference.new_messages
+	kDelete                      // common pts, other_updates (pts_count 1..3)
+	kRead                        // common pts, other_updates
+	kEdit                        // common pts, other_updates
+	kEnc                         // qts, new_encrypted_messages
+	kBotStopped                  // qts, other_updates
+	kChatPart                    // qts, other_updates
+	kChMsg                       // channel pts, channelDifference.new_messages
+	kChDelete                    // channel pts, other_updates (pts_count 1..3)
+	kChEdit                      // channel pts, other_updates
 )
 
 var kindNames = [...]string{"newMessage", "deleteMessages", "readHistoryInbox", "editMessage",
@@ -85,9 +85,9 @@ type event struct {
 	Seq       int      `json:"seq,omitempty"`
 	SeqMarker int64    `json:"seq_marker,omitempty"`
 	Entries   []*entry `json:"entries"`
-	Short     bool     `json:"short,omitempty"`      // pushed as updateShortMessage
+	Short     bool     `json:"short,omitempty"`       // pushed as updateShortMessage
 	NoEnts    bool     `json:"no_entities,omitempty"` // unknown sender, container carries no Users
-	NoiseCh   int64    `json:"noise_ch,omitempty"`   // carries a count-0 updateReadChannelInbox for this channel
+	NoiseCh   int64    `json:"noise_ch,omitempty"`    // carries a count-0 updateReadChannelInbox for this channel
 	NoisePts  int      `json:"noise_pts,omitempty"`
 }
 
